@@ -194,6 +194,13 @@ func (g *guardEngine) minLenByConstruction(x ssa.Value, depth int) int64 {
 			return n
 		}
 		if add, ok := v.Len.(*ssa.BinOp); ok && add.Op == token.ADD {
+			// k + (a count that cannot be negative)
+			if k, ok := constInt(add.X); ok && k > 0 && nonNegInt(add.Y, 0, map[ssa.Value]bool{}) {
+				return k
+			}
+			if k, ok := constInt(add.Y); ok && k > 0 && nonNegInt(add.X, 0, map[ssa.Value]bool{}) {
+				return k
+			}
 			if lenArg(add.X) != nil {
 				if k, ok := constInt(add.Y); ok && k > 0 {
 					return k
@@ -1732,4 +1739,52 @@ func appendsOnSuccess(h *ssa.Function, par *ssa.Parameter) bool {
 		}
 	}
 	return n > 0
+}
+
+// nonNegInt: v is an integer that cannot be negative on structural grounds: a non-negative
+// constant, a length, a sum of such values, a loop-carried sum of them, or the result of a
+// module function all of whose returns are such values.
+func nonNegInt(v ssa.Value, depth int, seen map[ssa.Value]bool) bool {
+	if seen[v] {
+		return true
+	}
+	seen[v] = true
+	if depth > 6 {
+		return false
+	}
+	if k, ok := constInt(v); ok {
+		return k >= 0
+	}
+	if lenArg(v) != nil {
+		return true
+	}
+	switch x := v.(type) {
+	case *ssa.BinOp:
+		if x.Op == token.ADD {
+			return nonNegInt(x.X, depth+1, seen) && nonNegInt(x.Y, depth+1, seen)
+		}
+	case *ssa.Phi:
+		for _, e := range x.Edges {
+			if !nonNegInt(e, depth+1, seen) {
+				return false
+			}
+		}
+		return true
+	case *ssa.Call:
+		h := x.Call.StaticCallee()
+		if h == nil || !fnInModule(h) || len(h.Blocks) == 0 || h.Signature.Results().Len() != 1 {
+			return false
+		}
+		n := 0
+		for _, b := range h.Blocks {
+			if ret, ok := b.Instrs[len(b.Instrs)-1].(*ssa.Return); ok {
+				n++
+				if !nonNegInt(ret.Results[0], depth+1, seen) {
+					return false
+				}
+			}
+		}
+		return n > 0
+	}
+	return false
 }
